@@ -298,3 +298,249 @@ Lemma hm_env_slots i : hmono (env_slots i). Proof. unfold env_slots. hm_same. Qe
 Lemma hm_env_new l : hmono (env_new l). Proof. unfold env_new, new_env. hm_same. Qed.
 Lemma hm_vec_get i : hmono (vec_get i). Proof. unfold vec_get. hm_same. Qed.
 Lemma hm_vec_set i l : hmono (vec_set i l). Proof. unfold vec_set. hm_same. Qed.
+
+(* ------------------------------------------------------------------ value destructors *)
+Lemma vlive_addr W v a : vlive W v -> In a (vaddrs v) -> alive W a.
+Proof. intros [H _]. apply H. Qed.
+Lemma vlive_id W v i : vlive W v -> In i (vids v) -> wi W i.
+Proof. intros [_ H]. apply H. Qed.
+
+Lemma sim_as_ptr W v1 v2 : vr W v1 v2 -> sim W ar (as_ptr v1) (as_ptr v2).
+Proof.
+  intros [-> L]. destruct v1; cbn [vmap as_ptr]; try apply sim_fail.
+  apply sim_ret. split; [reflexivity|]. apply (vlive_addr _ _ _ L). now left.
+Qed.
+Lemma sim_as_argc W v1 v2 : vr W v1 v2 -> sim W eqr (as_argc v1) (as_argc v2).
+Proof. intros [-> L]. destruct v1; cbn [vmap as_argc]; try apply sim_fail. apply sim_ret. reflexivity. Qed.
+Lemma sim_as_bp W v1 v2 : vr W v1 v2 -> sim W eqr (as_bp v1) (as_bp v2).
+Proof. intros [-> L]. destruct v1; cbn [vmap as_bp]; try apply sim_fail. apply sim_ret. reflexivity. Qed.
+Lemma sim_as_ep W v1 v2 : vr W v1 v2 -> sim W ar (as_ep v1) (as_ep v2).
+Proof.
+  intros [-> L]. destruct v1; cbn [vmap as_ep]; try apply sim_fail.
+  apply sim_ret. split; [reflexivity|]. apply (vlive_addr _ _ _ L). now left.
+Qed.
+Definition ipr (W : world) (i1 i2 : N * N) : Prop := ar W (fst i1) (fst i2) /\ snd i2 = snd i1.
+Lemma sim_as_ip W v1 v2 : vr W v1 v2 -> sim W ipr (as_ip v1) (as_ip v2).
+Proof.
+  intros [-> L]. destruct v1; cbn [vmap as_ip]; try apply sim_fail.
+  apply sim_ret. split; [|reflexivity]. split; [reflexivity|]. apply (vlive_addr _ _ _ L). now left.
+Qed.
+Definition idr (p : N -> pid) (W : world) (i1 i2 : N) : Prop := i2 = i1 /\ wi W (p i1).
+Lemma sim_as_lexenv W v1 v2 : vr W v1 v2 -> sim W (idr PEnv) (as_lexenv v1) (as_lexenv v2).
+Proof.
+  intros [-> L]. destruct v1; cbn [vmap as_lexenv]; try apply sim_fail.
+  apply sim_ret. split; [reflexivity|]. apply (vlive_id _ _ _ L). now left.
+Qed.
+Lemma sim_usub W a b : sim W eqr (usub a b) (usub a b).
+Proof. unfold usub. destruct (a <? b); [apply sim_panic|apply sim_ret; reflexivity]. Qed.
+
+(* ------------------------------------------------------------------ heap reads *)
+Lemma sim_hget W a1 a2 : ar W a1 a2 -> sim W vr (hget a1) (hget a2).
+Proof.
+  intros [-> [La | ->]]; apply sim_read; intros s1 s2 R; unfold hget, lift, heap_get.
+  - destruct (sr_al1 _ _ _ R a1 La) as [L1 _]. destruct (sr_al2 _ _ _ R a1 La) as [L2 _].
+    apply N.ltb_lt in L1, L2. rewrite L1, L2. split; [reflexivity|].
+    eexists. split; [reflexivity|]. exact (sr_cell _ _ _ R a1 La).
+  - pose proof (sr_b1 _ _ _ R) as B. apply N.ltb_ge in B. rewrite B. exact I.
+Qed.
+Lemma sim_hderef W v1 v2 : vr W v1 v2 -> sim W vr (hderef v1) (hderef v2).
+Proof.
+  intros Hv. pose proof Hv as [-> L].
+  destruct v1; try (apply sim_read; intros s1 s2 R; unfold hderef, lift, heap_deref; cbn [vmap];
+                    split; [reflexivity|]; eexists; split; [reflexivity|exact Hv]).
+  change (hderef (VPtr p)) with (hget p). change (hderef (vmap (wf W) (VPtr p))) with (hget (wf W p)).
+  apply sim_hget. split; [reflexivity|]. apply (vlive_addr _ _ _ L). now left.
+Qed.
+
+(* ------------------------------------------------------------------ payload reads *)
+Lemma sim_get_lambda W lid : wi W (PLam lid) -> sim W lamr (get_lambda lid) (get_lambda lid).
+Proof.
+  intros Hi. apply sim_read. intros s1 s2 R. unfold get_lambda.
+  pose proof (sr_lams _ _ _ (sr_store _ _ _ R) lid Hi) as H.
+  destruct (tget (lams (st s1)) lid) as [l1|], (tget (lams (st s2)) lid) as [l2|]; cbn [orel] in H; try contradiction; [|exact I].
+  split; [reflexivity|]. exists l2. split; [reflexivity|exact H].
+Qed.
+Lemma sim_as_lambda W v1 v2 : vr W v1 v2 -> sim W lamr (as_lambda v1) (as_lambda v2).
+Proof.
+  intros [-> L]. destruct v1; cbn [vmap as_lambda]; try apply sim_fail.
+  apply sim_get_lambda. apply (vlive_id _ _ _ L). now left.
+Qed.
+Lemma sim_env_slots W e1 e2 : idr PEnv W e1 e2 -> sim W lr (env_slots e1) (env_slots e2).
+Proof.
+  intros [-> Hi]. apply sim_read. intros s1 s2 R. unfold env_slots.
+  pose proof (sr_envs _ _ _ (sr_store _ _ _ R) e1 Hi) as H.
+  destruct (tget (envs (st s1)) e1) as [l1|], (tget (envs (st s2)) e1) as [l2|]; cbn [orel] in H; try contradiction; [|exact I].
+  split; [reflexivity|]. exists l2. split; [reflexivity|exact H].
+Qed.
+Lemma sim_vec_get W vid : wi W (PVec vid) -> sim W lr (vec_get vid) (vec_get vid).
+Proof.
+  intros Hi. apply sim_read. intros s1 s2 R. unfold vec_get.
+  pose proof (sr_vecs _ _ _ (sr_store _ _ _ R) vid Hi) as H.
+  destruct (tget (vecs (st s1)) vid) as [l1|], (tget (vecs (st s2)) vid) as [l2|]; cbn [orel] in H; try contradiction; [|exact I].
+  split; [reflexivity|]. exists l2. split; [reflexivity|exact H].
+Qed.
+
+Lemma list_get_map {A B} (f : A -> B) l i : list_get (map f l) i = option_map f (list_get l i).
+Proof. unfold list_get. apply nth_error_map. Qed.
+Lemma list_get_in {A} (l : list A) i v : list_get l i = Some v -> In v l.
+Proof. unfold list_get. apply nth_error_In. Qed.
+Lemma lr_get W l1 l2 i : lr W l1 l2 ->
+  match list_get l1 i with
+  | Some v1 => exists v2, list_get l2 i = Some v2 /\ vr W v1 v2
+  | None => list_get l2 i = None
+  end.
+Proof.
+  intros [-> L]. rewrite list_get_map. destruct (list_get l1 i) as [v1|] eqn:E; cbn [option_map]; [|reflexivity].
+  eexists. split; [reflexivity|]. split; [reflexivity|]. rewrite Forall_forall in L. apply L. eapply list_get_in, E.
+Qed.
+Lemma hm_env_get e i : hmono (env_get e i).
+Proof. unfold env_get. apply hm_bind; [apply hm_env_slots|]. intros l. destruct (list_get l i); [apply hm_ret|apply hm_panic]. Qed.
+Lemma sim_env_get W e1 e2 i : idr PEnv W e1 e2 -> sim W vr (env_get e1 i) (env_get e2 i).
+Proof.
+  intros He. unfold env_get. eapply sim_bind; [apply sim_env_slots, He| |].
+  - intros l. destruct (list_get l i); [apply hm_ret|apply hm_panic].
+  - intros W' l1 l2 E Hl. pose proof (lr_get W' l1 l2 i Hl) as H.
+    destruct (list_get l1 i) as [v1|]; [|apply sim_panic].
+    destruct H as (v2 & -> & Hv). apply sim_ret, Hv.
+Qed.
+
+(* ------------------------------------------------------------------ code *)
+Fixpoint jflagn (l : list vcell) (j : bool) (n : nat) {struct n} : bool :=
+  match n, l with
+  | O, _ => j
+  | S k, v :: r => jflagn r (is_jump v) k
+  | S k, [] => false
+  end.
+Lemma bcmap_nth f l : forall j n,
+  nth_error (bcmap f j l) n = option_map (fun v => if jflagn l j n then v else vmap f v) (nth_error l n).
+Proof.
+  induction l as [|v r IH]; intros j n; [destruct n; reflexivity|].
+  destruct n as [|n]; cbn [bcmap nth_error jflagn option_map]; [reflexivity|apply IH].
+Qed.
+Lemma bclive_nth W l : forall j n v, bclive W j l -> nth_error l n = Some v -> jflagn l j n = false -> vlive W v.
+Proof.
+  induction l as [|u r IH]; intros j n v H E F; [destruct n; discriminate|].
+  destruct H as [Hu Hr]. destruct n as [|n]; cbn [nth_error jflagn] in *.
+  - injection E as <-. subst j. exact Hu.
+  - eapply IH; eassumption.
+Qed.
+Lemma jflagn_S l : forall j n, jflagn l j (S n) = match nth_error l n with Some u => is_jump u | None => false end.
+Proof.
+  induction l as [|v r IH]; intros j n; [destruct n; reflexivity|].
+  destruct n as [|n]; [reflexivity|]. exact (IH (is_jump v) n).
+Qed.
+Lemma is_jump_vmap f v : is_jump (vmap f v) = is_jump v.
+Proof. destruct v; reflexivity. Qed.
+
+(* the flag of the code cell %ip points at: true iff it is the operand of a JMP / JNT *)
+Definition pflag (s : vm) : bool :=
+  match cell_at (hp s) (fst (ip s)) with
+  | VLambda lid =>
+      match tget (lams (st s)) lid with
+      | Some l => jflagn (l_bc l) false (N.to_nat (snd (ip s)))
+      | None => false
+      end
+  | _ => false
+  end.
+
+Definition outcome {A1 A2} (W : world) (Q : world -> A1 -> A2 -> Prop) (r1 : res A1) (r2 : res A2) : Prop :=
+  match r1 with
+  | ROk a1 s1' => bounded s1' ->
+      exists a2 s2' W', r2 = ROk a2 s2' /\ ext W W' /\ srel W' s1' s2' /\ Q W' a1 a2
+  | RErr e msg s1' => bounded s1' ->
+      exists s2' W', r2 = RErr e msg s2' /\ ext W W' /\ srel W' s1' s2'
+  | _ => True
+  end.
+Lemma sim_outcome {A1 A2} W Q (m1 : M A1) (m2 : M A2) s1 s2 :
+  sim W Q m1 m2 -> srel W s1 s2 -> outcome W Q (m1 s1) (m2 s2).
+Proof. intros H R. exact (H s1 s2 R). Qed.
+
+(* a first step that keeps the world, with a fact about the new s1-state *)
+Definition step0 {A1 A2} (W : world) (P : A1 -> A2 -> vm -> Prop) (r1 : res A1) (r2 : res A2) : Prop :=
+  match r1 with
+  | ROk a1 s1' => exists a2 s2', r2 = ROk a2 s2' /\ srel W s1' s2' /\ P a1 a2 s1'
+  | RErr e msg s1' => exists s2', r2 = RErr e msg s2' /\ srel W s1' s2'
+  | _ => True
+  end.
+Lemma step0_bind {A1 A2 B1 B2} W Q P (m1 : M A1) (m2 : M A2) (k1 : A1 -> M B1) (k2 : A2 -> M B2) s1 s2 :
+  step0 W P (m1 s1) (m2 s2) ->
+  (forall a1 a2 s1' s2', srel W s1' s2' -> P a1 a2 s1' -> outcome W Q (k1 a1 s1') (k2 a2 s2')) ->
+  outcome W Q (bindM m1 k1 s1) (bindM m2 k2 s2).
+Proof.
+  intros H K. unfold bindM, step0 in *. destruct (m1 s1) as [a1 s1'|e msg s1'| |]; try exact I.
+  - destruct H as (a2 & s2' & -> & R & HP). apply K; assumption.
+  - destruct H as (s2' & -> & R). intros B. exists s2', W. split; [reflexivity|]. split; [apply ext_refl|exact R].
+Qed.
+
+Lemma cur_lambda_step W s1 s2 : srel W s1 s2 ->
+  step0 W (fun l1 l2 s => lamr W l1 l2 /\ s = s1 /\
+             exists lid, cell_at (hp s1) (fst (ip s1)) = VLambda lid /\ tget (lams (st s1)) lid = Some l1)
+        (cur_lambda s1) (cur_lambda s2).
+Proof.
+  intros R. unfold cur_lambda, heap_get. destruct (sr_ip _ _ _ R) as [[E [La|En]] _].
+  - rewrite E. destruct (sr_al1 _ _ _ R _ La) as [L1 _]. destruct (sr_al2 _ _ _ R _ La) as [L2 _].
+    apply N.ltb_lt in L1, L2. rewrite L1, L2.
+    pose proof (sr_cell _ _ _ R _ La) as [Ec Lc]. unfold cell_at in Ec, Lc. rewrite Ec.
+    fold (cell_at (hp s1) (fst (ip s1))) in *.
+    destruct (cell_at (hp s1) (fst (ip s1))) eqn:Ecell; cbn [vmap step0]; try exact I.
+    assert (Hi : wi W (PLam lid)) by (apply Lc; now left).
+    pose proof (sr_lams _ _ _ (sr_store _ _ _ R) lid Hi) as H. unfold get_lambda.
+    destruct (tget (lams (st s1)) lid) as [l1|] eqn:E1, (tget (lams (st s2)) lid) as [l2|]; cbn [orel] in H; try contradiction; [|exact I].
+    exists l2, s2. split; [reflexivity|]. split; [exact R|]. split; [exact H|]. split; [reflexivity|].
+    exists lid. split; [reflexivity|exact E1].
+  - pose proof (sr_b1 _ _ _ R) as B. rewrite En. apply N.ltb_ge in B. rewrite B. exact I.
+Qed.
+
+Lemma to_nat_succ i : N.to_nat (i + 1) = S (N.to_nat i).
+Proof. lia. Qed.
+
+Lemma srel_with_ip W s1 s2 i : srel W s1 s2 ->
+  srel W (with_ip s1 (fst (ip s1), i)) (with_ip s2 (fst (ip s2), i)).
+Proof.
+  intros R. eapply srel_regs; [exact R|apply wsame_refl|..]; sr_simpl; try (rr R).
+Qed.
+
+Lemma read_opcode_step W s1 s2 : srel W s1 s2 ->
+  step0 W (fun o1 o2 s => o2 = o1 /\ pflag s = is_jump (VOp o1)) (read_opcode s1) (read_opcode s2).
+Proof.
+  intros R. unfold read_opcode, bindM. pose proof (cur_lambda_step W s1 s2 R) as H. unfold step0 in H.
+  destruct (cur_lambda s1) as [l1 s1'|e m s1'| |]; try exact I.
+  - destruct H as (l2 & s2' & E2 & R' & ([-> Ll] & -> & lid & Hc & Ht)). rewrite E2.
+    unfold get_vm. cbv beta iota. cbn [l_bc lmap]. rewrite (proj2 (sr_ip _ _ _ R')).
+    unfold list_get. rewrite bcmap_nth.
+    destruct (nth_error (l_bc l1) (N.to_nat (snd (ip s1)))) as [v|] eqn:En; cbn [option_map].
+    + destruct v; try (destruct (jflagn (l_bc l1) false (N.to_nat (snd (ip s1)))); cbn [vmap];
+                       unfold fail, step0; cbv beta iota; exists s2'; (split; [reflexivity|exact R'])).
+      assert (Ev : (if jflagn (l_bc l1) false (N.to_nat (snd (ip s1))) then VOp o else vmap (wf W) (VOp o)) = VOp o)
+        by (destruct (jflagn _ _ _); reflexivity).
+      rewrite Ev. unfold set_ip, ret, step0. cbv beta iota.
+      eexists o, _. split; [reflexivity|]. split.
+      * rewrite <- (proj2 (sr_ip _ _ _ R')). apply srel_with_ip, R'.
+      * split; [reflexivity|]. unfold pflag. cbn [hp st ip with_ip fst snd]. rewrite Hc, Ht.
+        rewrite to_nat_succ, jflagn_S, En. reflexivity.
+    + unfold fail, step0. cbv beta iota. exists s2'. split; [reflexivity|exact R'].
+  - destruct H as (s2' & E2 & R'). rewrite E2. exists s2'. split; [reflexivity|exact R'].
+Qed.
+
+(* an operand: renamed unless it is the target of a jump *)
+Lemma read_operand_step W s1 s2 : srel W s1 s2 ->
+  step0 W (fun o1 o2 s => if pflag s1 then o2 = o1 else vr W o1 o2) (read_operand s1) (read_operand s2).
+Proof.
+  intros R. unfold read_operand, bindM. pose proof (cur_lambda_step W s1 s2 R) as H. unfold step0 in H.
+  destruct (cur_lambda s1) as [l1 s1'|e m s1'| |]; try exact I.
+  - destruct H as (l2 & s2' & E2 & R' & ([-> Ll] & -> & lid & Hc & Ht)). rewrite E2.
+    unfold get_vm. cbv beta iota. cbn [l_bc lmap]. rewrite (proj2 (sr_ip _ _ _ R')).
+    unfold list_get. rewrite bcmap_nth. unfold pflag. rewrite Hc, Ht.
+    destruct (nth_error (l_bc l1) (N.to_nat (snd (ip s1)))) as [v|] eqn:En; cbn [option_map].
+    + destruct (jflagn (l_bc l1) false (N.to_nat (snd (ip s1)))) eqn:Ej.
+      * destruct v; try (unfold set_ip, ret, step0; cbv beta iota; eexists _, _; split; [reflexivity|];
+                         split; [rewrite <- (proj2 (sr_ip _ _ _ R')); apply srel_with_ip, R'|reflexivity]).
+        unfold fail, step0. cbv beta iota. exists s2'. split; [reflexivity|exact R'].
+      * assert (Lv : vlive W v) by (eapply bclive_nth; [apply Ll|exact En|exact Ej]).
+        destruct v; cbn [vmap];
+          try (unfold set_ip, ret, step0; cbv beta iota; eexists _, _; split; [reflexivity|];
+               split; [rewrite <- (proj2 (sr_ip _ _ _ R')); apply srel_with_ip, R'|split; [reflexivity|exact Lv]]).
+        unfold fail, step0. cbv beta iota. exists s2'. split; [reflexivity|exact R'].
+    + unfold fail, step0. cbv beta iota. exists s2'. split; [reflexivity|exact R'].
+  - destruct H as (s2' & E2 & R'). rewrite E2. exists s2'. split; [reflexivity|exact R'].
+Qed.
